@@ -284,3 +284,78 @@ Definition list_of_arr (a : arr) : list Z :=
   map (fun cp => a_get a (fst cp) (snd cp)) (positions (a_c a) (a_sh a)).
 Definition cells_of_buffer (b : buffer) : list cell :=
   map (fun cp => b_get b (fst cp) (snd cp)) (positions (b_c b) (b_sh b)).
+
+(* ---------- the source scale as a chunk store with fallible reads ---------- *)
+
+(* chunk_reader.read_chunk(old_key, coords) behind the coordinate assertion:
+   the accessor fetch and the decoder, each of which may raise
+   (DataAccessError, InvalidFormatError, ...); lo/hi are the chunk corners *)
+Definition chunk_src : Type := t3 -> t3 -> outcome arr.
+
+Definition read_chunk_src (src : chunk_src) (size cs lo hi : t3) : outcome arr :=
+  if negb (validate_chunk_coords size cs lo hi) then Crash AssertionError else src lo hi.
+
+(* the store in which every chunk of a complete level can be read *)
+Definition src_of_level (lvl : arr) : chunk_src :=
+  fun lo hi => Ok (restrict lvl lo (sub3 hi lo)).
+
+(* the same store with the chunks whose origin is listed made unreadable *)
+Definition eqb_t3 (a b : t3) : bool := eqb3 a b.
+Definition src_with_failures (lvl : arr) (bad : list (t3 * outcome arr)) : chunk_src :=
+  fun lo hi =>
+    match find (fun e => eqb_t3 (fst e) lo) bad with
+    | Some (_, err) => err
+    | None => Ok (restrict lvl lo (sub3 hi lo))
+    end.
+
+Section TilingSrc.
+
+Variable ds : t3 -> arr -> arr.
+
+(* load_and_downscale_old_chunk: no try/except, a failing read propagates *)
+Definition load_ds_src (g : geom) (src : chunk_src) (j : t3) : outcome arr :=
+  let lo := mul3 (g_oc g) j in
+  let hi := min3 (mul3 (g_oc g) (add3 j one3)) (g_os g) in
+  bind (read_chunk_src src (g_os g) (g_oc g) lo hi) (fun c => Ok (ds (factors g) c)).
+
+Definition octant_step_src (g : geom) (src : chunk_src) (idx e : t3) (acc : outcome buffer) (b : t3)
+  : outcome buffer :=
+  bind acc (fun buf =>
+    let h := half_chunk g in
+    if forall3_3 ax_cond b e h then
+      bind (load_ds_src g src (add3 (mul3 idx (fetch_factor g)) b)) (fun s =>
+      assign buf (zip3_3 ax_dlo b e h) (zip3_3 ax_dext b e h) s)
+    else Ok buf).
+
+Definition tile_chunk_src (g : geom) (src : chunk_src) (idx : t3) : outcome (t3 * t3 * buffer) :=
+  let lo := new_lo g idx in
+  let hi := new_hi g idx in
+  let e := sub3 hi lo in
+  let b0 := {| b_c := g_ch g; b_sh := e; b_get := fun _ _ => Uninit |} in
+  bind (fold_left (octant_step_src g src idx e) octants (Ok b0)) (fun buf =>
+  if validate_chunk_coords (g_ns g) (g_nc g) lo hi then Ok (lo, hi, buf)
+  else Crash AssertionError).
+
+Definition tile_level_src (g : geom) (src : chunk_src) : outcome (list (t3 * t3 * buffer)) :=
+  if negb (eqb3 (g_ns g) (cdiv3 (g_os g) (factors g))) then Crash ValueError else
+  if negb (forall3 (fun h => negb (h =? 0)) (half_chunk g)) then Crash ZeroDivisionError else
+  if stretch_class g then Crash ValueError else
+  mapM (tile_chunk_src g src) (ndindex (chunk_range g)).
+
+End TilingSrc.
+
+(* the chunks of the old grid: origin oc * j inside the old volume *)
+Definition old_chunk_lo (g : geom) (j : t3) : t3 := mul3 (g_oc g) j.
+Definition old_chunk_hi (g : geom) (j : t3) : t3 :=
+  min3 (mul3 (g_oc g) (add3 j one3)) (g_os g).
+Definition in_old_grid (g : geom) (j : t3) : bool :=
+  forall3 (fun x => 0 <=? x) j && forall3_2 Z.ltb (old_chunk_lo g j) (g_os g).
+
+(* two outcomes of different types that are the same failure *)
+Definition same_error {A B} (o : outcome A) (o' : outcome B) : Prop :=
+  match o, o' with
+  | FormatErr, FormatErr | InfoErr, InfoErr | AccessErr, AccessErr
+  | IOErr, IOErr | Refused, Refused => True
+  | Crash k, Crash k' => k = k'
+  | _, _ => False
+  end.
